@@ -131,6 +131,8 @@ const GRID: u64 = 61 * 31 * 4 * 7;
 const GRID2: u64 = 60 * 2 * 16 * 7;
 /// prefix grid: 900 three-digit prefixes x 22 lengths x 3 precisions
 const GRID3: u64 = 900 * 22 * 3;
+/// coefficients 1..=12 x every precision 1..=150
+const GRID4: u64 = 12 * 150;
 
 fn budget(p: u64) -> u64 {
     // quadratic convergence from a relative error <= 0.66: ~log2(5.5 (p+2)) iterations, +2 to see the repeat
@@ -431,7 +433,7 @@ impl Property for C12 {
         "exploration"
     }
     fn runs(&self, tier: Tier) -> u64 {
-        GRID + GRID2 + GRID3 + match tier {
+        GRID + GRID2 + GRID3 + GRID4 + match tier {
             Tier::Quick => 60_000,
             Tier::Thorough => 6_000_000,
         }
@@ -490,6 +492,15 @@ impl Property for C12 {
             let mode = *rng.pick(&MODES);
             let x = Dec::new(rng.chance(1, 2), &digits, rng.range(-25, 25));
             return Trace { x, prec, mode, via: Via::Ctx, env: EnvSel::One(FloatEnv::Native) };
+        }
+        if run < GRID + GRID2 + GRID3 + GRID4 {
+            // every precision 1..=150 for the one- and two-digit coefficients 1..=12 (random scale, sign and mode):
+            // a shortcut or a fixed-width intermediate that depends on the precision alone shows up here
+            let r = run - GRID - GRID2 - GRID3;
+            let c = r % 12 + 1;
+            let prec = r / 12 + 1;
+            let x = Dec::new(rng.chance(1, 2), &c.to_string(), rng.range(-30, 30));
+            return Trace { x, prec, mode: *rng.pick(&MODES), via: Via::Ctx, env: EnvSel::All };
         }
         let via = if rng.chance(1, 5) { *rng.pick(&VIAS_DEFAULT) } else { Via::Ctx };
         if via != Via::Ctx && rng.chance(1, 2) {
@@ -808,7 +819,7 @@ impl Property for C12 {
         Some(("L1-terminates", 180))
     }
     fn exhaustive_note(&self, _tier: Tier) -> Option<String> {
-        Some("grids: every 3-digit prefix x 1..22 digits x p = 1..3 (native exp2); every x = 99..9 and 100..01 (1..60 nines / zeros) x 16 precisions placed relative to the length x 7 modes; every x = 2^i 5^j (i <= 60, j <= 30; random sign and power-of-ten scale) x precisions {L-1, L, L+1, L+2} around the exact length L of 1/x x all 7 modes is enumerated; per execution the admissible exp2 set is enumerated".into())
+        Some("grids: coefficients 1..12 x every precision 1..150; every 3-digit prefix x 1..22 digits x p = 1..3 (native exp2); every x = 99..9 and 100..01 (1..60 nines / zeros) x 16 precisions placed relative to the length x 7 modes; every x = 2^i 5^j (i <= 60, j <= 30; random sign and power-of-ten scale) x precisions {L-1, L, L+1, L+2} around the exact length L of 1/x x all 7 modes is enumerated; per execution the admissible exp2 set is enumerated".into())
     }
 }
 
